@@ -395,6 +395,9 @@ class Interp(object):
             return MathModel()
         if name == 'json':
             return Opaque('json')
+        if name in ('collections', 'typing', 'abc', 'functools', 'string', 'operator'):
+            import importlib
+            return importlib.import_module(name)
         if name == 'warnings':
             return WarningsModel()
         if name.split('.')[0] == 'kawin':
@@ -691,7 +694,43 @@ class Interp(object):
             spec.exit_post(env, c)
         # loop exit: invariant and negated condition are in the path condition
 
+    def exec_for_with_spec(self, st, spec, env, module, func):
+        """`for i in range(n)` with symbolic n: the invariant holds before; one arbitrary iteration 0 <= i < n is
+        executed from a havocked state satisfying the invariant (checks the body and that it re-establishes the
+        invariant) on its own path; the code after the loop continues from a havocked state with the invariant."""
+        c = CTX()
+        where = self.where
+        if not (isinstance(st.iter, ast.Call) and isinstance(st.iter.func, ast.Name) and st.iter.func.id == 'range' and len(st.iter.args) == 1):
+            raise Unsupported('%s loop spec on a for loop that is not `for i in range(n)`' % where)
+        n = self.eval(st.iter.args[0], env, module, func)
+        for name, t in spec.invariant(env, c):
+            c.prove('%s/entry/%s' % (spec.name, name), t, kind='loop-invariant', where=where)
+        spec.havoc(env, c)
+        for name, t in spec.invariant(env, c):
+            c.assume(t)
+        if truth(c.fresh('iterate', 'bool')):
+            i = c.fresh('it', 'int')
+            c.assume(i >= 0, sym.cmp('<', i, n))
+            self.assign(st.target, i, env, module, func)
+            ghost = spec.ghost(env, c) if getattr(spec, 'ghost', None) else {}
+            try:
+                self.exec_block(st.body, env, module, func)
+            except (BreakEx, ContinueEx):
+                pass
+            for name, t in spec.invariant(env, c):
+                c.prove('%s/preserved/%s' % (spec.name, name), t, kind='loop-invariant', where=where)
+            if getattr(spec, 'body_post', None):
+                spec.body_post(env, c, ghost)
+            raise PathEnd()
+        if getattr(spec, 'exit_post', None):
+            spec.exit_post(env, c)
+
     def exec_For(self, st, env, module, func):
+        spec = None
+        if func is not None and self.loop_specs:
+            spec = self.loop_specs.get((func.key, self._loop_ordinal(st, func)))
+        if spec is not None and not getattr(CTX(), 'replay', False):
+            return self.exec_for_with_spec(st, spec, env, module, func)
         it = self.eval(st.iter, env, module, func)
         items = self.iterate(it)
         n = 0
@@ -889,7 +928,8 @@ class Interp(object):
         if isinstance(o, (ArrBase, SV, Fraction, int, str, tuple, list, dict)) or o is None:
             raise PyRaise('AttributeError', "'%s' object has no attribute '%s'" % (type(o).__name__, name), self.where)
         if isinstance(o, Opaque):
-            raise Unsupported('%s attribute store on opaque %s' % (self.where, o.name))
+            o.__dict__[name] = v
+            return
         setattr(o, name, v)
 
     def getitem(self, o, k):
@@ -1364,7 +1404,7 @@ class Interp(object):
         if isinstance(fv, Obj):
             return fv(*args, **kwargs)
         if isinstance(fv, Opaque):
-            raise Unsupported('%s call of opaque %s' % (self.where, fv.name))
+            return fv(*args, **kwargs)
         if fv is None or isinstance(fv, (SV, Fraction, int, str, list, dict, tuple, ArrBase)):
             raise PyRaise('TypeError', "'%s' object is not callable" % type(fv).__name__, self.where)
         try:
